@@ -4,8 +4,8 @@
    harness/props/c14.py).  No bound on the size of integers, widths or byte strings. *)
 From Coq Require Import ZArith List Bool Lia.
 Import ListNotations.
-Require Import Base.Py Base.ZList Model.Id3Util
-  Proofs.C14_digits Proofs.C14_padding Proofs.C14_tostr Proofs.C14_unsynch.
+Require Import Base.Py Base.ZList Model.Id3Util Model.C14_Layers
+  Proofs.C14_digits Proofs.C14_padding Proofs.C14_tostr Proofs.C14_unsynch Proofs.C14_layers.
 Open Scope Z_scope.
 
 (* fixed width: a value that fits is encoded in exactly `width` bytes, each below 2^bits (padding bits
@@ -129,6 +129,43 @@ Theorem C14_sync_safe_meaning : forall l, sync_safe l = true <->
   (forall n, (n < length l)%nat -> nth n l 0 = 0xFF -> (S n < length l)%nat /\ nth (S n) l 0 < 0xE0).
 Proof. intros l. split; [apply sync_safe_nth | apply sync_safe_of_nth]. Qed.
 Print Assumptions C14_sync_safe_meaning.
+
+(* tag level, layering (Model.C14_Layers: the flag handling of Frame._fromData in source order, zlib abstract).
+   For ANY pair inflate/deflate with inflate (deflate b) = Ok b: a v2.4 frame laid out as the specification
+   says -- deflate, then the syncsafe data length bytes to_str(len(body), 7, width 4), then the
+   unsynchronisation scheme (frame flag or tag-level flag) -- is read back as the original frame bytes, for
+   every combination of the four flags.  The reader must destuff BEFORE it inflates. *)
+Theorem C14_frame_layers_v24 :
+  forall (inflate : list Z -> result (list Z)) (deflate : list Z -> list Z),
+  (forall b, inflate (deflate b) = Ok b) ->
+  forall tag_unsynch frame_unsynch compress datalen dl4 body,
+  zlen body < 2 ^ 28 -> to_str (zlen body) 7 true 4 4 = Ok dl4 ->
+  from_data_v24 inflate tag_unsynch (tflags_v24 frame_unsynch compress datalen)
+    (enc_v24 deflate (frame_unsynch || tag_unsynch) compress datalen dl4 body) = Ok body.
+Proof. exact from_data_v24_syncsafe. Qed.
+Print Assumptions C14_frame_layers_v24.
+(* v2.3: a (compressed) frame, and the whole-tag unsynchronisation removed by read_frames before the frames are cut *)
+Theorem C14_frame_layers_v23 :
+  forall (inflate : list Z -> result (list Z)) (deflate : list Z -> list Z),
+  (forall b, inflate (deflate b) = Ok b) ->
+  forall (compress f_unsynch : bool) sz4 body tagbody, length sz4 = 4%nat ->
+  from_data_v23 inflate (if compress then FLAG23_COMPRESS else 0) (enc_v23 deflate compress sz4 body) = Ok body
+  /\ tag_body_v23 f_unsynch (if f_unsynch then unsynch_encode tagbody else tagbody) = Ok tagbody.
+Proof.
+  intros inflate deflate H compress f_unsynch sz4 body tagbody H4. split.
+  - now apply from_data_v23_inverts.
+  - apply tag_body_v23_inverts.
+Qed.
+Print Assumptions C14_frame_layers_v23.
+(* the order is not a matter of taste: with inflate and destuffing swapped a concrete frame is not recovered
+   (inflate = byte reversal), while the modelled order recovers it *)
+Theorem C14_frame_layers_swapped_refuted :
+  exists body,
+    from_data_v24 (fun l => Ok (rev l)) false (tflags_v24 true true true)
+      (enc_v24 (@rev Z) true true true [0;0;0;2] body) = Ok body /\
+    ~ (swapped_v24 (fun l => Ok (rev l)) (enc_v24 (@rev Z) true true true [0;0;0;2] body) = Ok body).
+Proof. exact swapped_order_refuted. Qed.
+Print Assumptions C14_frame_layers_swapped_refuted.
 
 (* non-vacuity and concrete behaviour *)
 Example C14_ex_syncsafe_max : to_str 268435455 7 true 4 4 = Ok [127;127;127;127]
